@@ -114,6 +114,13 @@ func findElemInObj(
 		return object.BuiltInNil
 	}
 
+	// NOTE: err prop (like abstract props `_` in Either) is shared by all programs.
+	// Copy it not to leave stacktrace of this evaluation in the shared object
+	if err, ok := ret.(*object.PanErr); ok {
+		copied := *err
+		return &copied
+	}
+
 	return ret
 }
 
